@@ -92,3 +92,18 @@ def cover_rule(R, f, ex, tag=""):
 
 def sub_extractor(ex, qual_suffix):
     return [s for s in ex.all_extractors() if s.func.qualname.endswith(qual_suffix)]
+
+
+def compose_state_rules(R, repo, files, why):
+    """Results that depend only on the arguments cannot come from a memo: the caching / persistent-state findings of C19 (E3: module,
+    class and closure state, memoising decorators; E1 attribute stores outside setters: per-instance caches) that lie in the modules this
+    property's quantities are computed in are findings of this property too (a stale entry is a wrong result after a shell changed)."""
+    from . import c19 as _c19
+    from ..report import compose as _compose
+
+    def keep(fd):
+        where = (fd.where or "").split(":")[0]
+        if where not in files:
+            return False
+        return fd.rule.endswith("/E3") or (fd.rule.endswith("/E1") and "attribute-store" in (fd.message or "")) or fd.rule.endswith("/E5")
+    return _compose(R, "C19", _c19.run, repo, keep=keep, why=why)
